@@ -27,10 +27,17 @@ def mapping_from_recipe_templates(
     declarations = declarations or {}
     relevant_declarations = [decl for decl in declarations.values() if decl.load_after]
 
-    inferred_dependencies, declared_dependencies, reference_fields = build_dependencies(
-        summary.intertable_dependencies, relevant_declarations
-    )
     tables = summary.tables.copy()
+    # references to tables that are not loaded (hidden `__` tables, literal
+    # `reference: {object:, id:}` pairs) cannot be lookups
+    loadable_dependencies = [
+        dep
+        for dep in summary.intertable_dependencies
+        if dep.table_name_to in tables or dep.table_name_to == "PersonContact"
+    ]
+    inferred_dependencies, declared_dependencies, reference_fields = build_dependencies(
+        loadable_dependencies, relevant_declarations
+    )
     remove_person_contact_id(inferred_dependencies, tables)
     table_order = sort_dependencies(
         inferred_dependencies, declared_dependencies, tables
